@@ -7,7 +7,7 @@ from .. import common, doccheck, gen_doc, uiparse
 from ..gen_doc import DocGen, Group
 
 KINDS = ["unknown-property", "ill-typed", "duplicate-binding", "duplicate-grouped", "duplicate-attached",
-         "unknown-type", "invalid-type", "unknown-attached-type", "unknown-signal", "read-only", "ill-typed-pseudo"]
+         "unknown-type", "invalid-type", "unknown-attached-type", "unknown-signal", "read-only", "ill-typed-pseudo", "unused-attached"]
 ARRAYS = ("stretch", "rowstretch", "columnstretch", "rowminimumheight", "columnminimumwidth")
 
 
